@@ -29,6 +29,11 @@ func main() {
 	slowOK = *slow
 	realCtorAlways = *realc
 	focus = *foc
+	if focus == "fleetfail" {
+		// several launch-template groups under pressure whose fleet requests mostly fail at once (no waiting): the failure
+		// counts of the groups must stay apart
+		fleetFail, focus = true, "fleet"
+	}
 	twinOn = stream == "hist" && focus == "multi"
 	w := bufio.NewWriterSize(os.Stdout, 1<<20)
 	if *out != "-" {
